@@ -56,11 +56,9 @@ def tables(s, v):
         ocls = v.repo.resolve(v.repo.qualify(found[0], found[1].returns))[3]
         ct = {f["name"]: f for f in v.repo.class_fields(ocls)}["collection_type"]["default"]
         s.table(f"collection_type[{tname}]", isinstance(ct, ast.Constant) and ct.value == tname, f"{ocls}: {ast.unparse(ct) if ct is not None else None}")
-    # DataAdapter.to_aoef assembles (hence converts parents / children) BEFORE storing the object: parents precede children
-    dm, dnode, _ = v.repo.function("soundevent.io.aoef.adapters:DataAdapter.to_aoef")
-    lines = {("assemble" if "assemble_aoef" in ast.unparse(st) else "store" if "_aoef_store[obj_id] =" in ast.unparse(st) else None): st.lineno
-             for st in ast.walk(dnode) if isinstance(st, ast.Assign)}
-    s.table("DataAdapter.to_aoef-assembles-before-storing", lines.get("assemble", 1e9) < lines.get("store", 0), str(lines))
-    sm, snode, _, _ = v.repo.find_method("soundevent.io.aoef.sequence.SequenceAdapter", "assemble_aoef")
-    s.table("SequenceAdapter-converts-the-parent-through-its-own-to_aoef", "self.to_aoef(obj.parent)" in ast.unparse(snode), "")
+    # (DataAdapter.to_aoef assembles -- hence converts an object's dependencies -- before it stores the object: a semantic side
+    #  obligation of the base-class verification in props/adapters_base.py, `object-not-stored-before-it-is-assembled`; it replaced
+    #  a syntactic statement-order table that raised a false alarm on a one-statement refactoring)
+    # (that SequenceAdapter converts a parent through its own to_aoef is carried by roundtrip[SequenceAdapter]: a parent written
+    #  without registration fails the `load-raises` obligation; a syntactic check of the call text was removed as brittle)
     return []
